@@ -155,6 +155,8 @@ def plan(tier, seed):
         (corner("mixed", prefix=A.GLD, name="mixed-dmm"), A.timing(dmm=True, faults=False), 2),
         (corner("unit", prefix=A.GL), tG, 2),
         (corner("real", prefix=A.LL, name="real-two-locals"), A.two_locals(), 4),
+        (corner("unit8", prefix=A.GL, name="unit8-fall-tail"), A.fall_tail(rise=60), 4),
+        (corner("real", prefix=A.GL, name="real-fall-tail"), A.fall_tail(rise=60, step=4), 4 if tier == "quick" else 3),
     ]
     if tier == "thorough":
         worlds = [(w, a, d + 1) for w, a, d in worlds]
